@@ -15,7 +15,7 @@ import (
 */
 func ContentOf(name string, data hctx.Map, help hctx.HelperContext) (template.HTML, error) {
 	fn, ok := help.Value("contentFor:" + name).(func(data hctx.Map) (template.HTML, error))
-	if !ok {
+	if !ok || fn == nil {
 		if !help.HasBlock() {
 			return template.HTML(""), errors.New("missing contentOf block: " + name)
 		}
